@@ -319,3 +319,22 @@ def show(t, depth=0):
     if h == "discr":
         return "discr(%s)" % show(t[1])
     return str(t)
+
+
+def on_all_paths(t, pred):
+    """pred holds somewhere inside t on EVERY alternative of every phi met on the way."""
+    if not isinstance(t, tuple) or not t:
+        return False
+    if pred(t):
+        return True
+    if t[0] == "phi":
+        return bool(t[2]) and all(on_all_paths(x, pred) for x in t[2])
+    for x in t[1:]:
+        if isinstance(x, tuple) and x and isinstance(x[0], str):
+            if on_all_paths(x, pred):
+                return True
+        elif isinstance(x, tuple):
+            for y in x:
+                if isinstance(y, tuple) and y and isinstance(y[0], str) and on_all_paths(y, pred):
+                    return True
+    return False
